@@ -1208,6 +1208,7 @@ struct Queue {
 }
 
 pub(crate) fn drive<P: ParallelIterator>(p: &P, short: Short) -> Vec<(usize, Vec<P::Item>)> {
+    crate::touch_global_pool();
     let n = p.src_len();
     let (active, pool, take, nested_inline, depth) =
         simctx::with(|c| (c.active, c.pool.max(1), c.take, !c.inner_full, c.depth));
